@@ -176,9 +176,15 @@ def silence_all():
     import bert_e.lib.git as G
     common.silence(gwf, B, Q, GU, PU, BE, G)
     # retry budget exhausted at the first failure (rejections are persistent)
+    global ORIG_WAIT
+    if ORIG_WAIT is None:
+        ORIG_WAIT = GU.RetryHandler.wait
     GU.RetryHandler.wait = _wait_raises
     return ['RetryHandler.wait raises at once: a push that failed is not '
             'retried (rejections are modelled as persistent within a job)']
+
+
+ORIG_WAIT = None
 
 
 def _wait_raises(self, err=None):
@@ -469,6 +475,10 @@ def scenario_direct_merge(ctx, shape, pr, natoms, monitors, no_octopus=False,
         nfresh = 3 * len(ts) + 6
     repo = SymRepo(ctx, refs, natoms, nfresh, interfere=interfere)
     repo.reject_refs = reject
+    # `git log A..B` is answered from the closures (parents of a pre-existing commit = the maximal
+    # elements of its closure): the merge routines do not call it today; a change that makes them
+    # depend on commit listings is then executed instead of ending the run as "unsupported command"
+    repo.log_model = natoms <= 6          # (larger graphs: listing commits forks too much)
     ctx.assume(symgit.status_domain(repo, natoms + nfresh))
     assume_inclusion(ctx, repo, shape)
     if pre:
